@@ -123,6 +123,11 @@ class DomainParser:
 
             same_type_constants.append(constant_name)
 
+        # constants that are not followed by a type are of the default type - object.
+        constants.update(
+            {name: PDDLConstant(name, ObjectType) for name in same_type_constants}
+        )
+
         self.logger.debug(f"Extracted {len(constants)} from the domain.")
         return constants
 
